@@ -32,7 +32,8 @@ Layout(j) == [comps |-> j.comps, has |-> j.has, resets |-> j.resets, plain |-> j
               period |-> j.period]
 
 TInit == /\ tid \in 1..Len(Batch) /\ l = 1 /\ verdict = "" /\ vkind = "" /\ vnew = FALSE /\ seen = {}
-         /\ adopted = 0 /\ lastSw = FALSE /\ mon = [lastM |-> "", prevEnabled |-> FALSE, afterWake |-> FALSE, bad |-> "", fbc |-> <<>>]
+         /\ adopted = 0 /\ lastSw = FALSE /\ mon = [lastM |-> "", prevEnabled |-> FALSE, afterWake |-> FALSE, bad |-> "", fbc |-> <<>>,
+                       fmsOn |-> Batch[tid].fms, pendingFatal |-> FALSE]
          /\ Init(Layout(Batch[tid].shape), Batch[tid].fms)
 
 J(v) == ToJson(v)
@@ -91,19 +92,30 @@ Adopt(ev, d) ==      \* take over observed data so that later clauses are still 
         judging a trace after its lock-step comparison ended with a FOREIGN verdict ---- *)
 \* C10: the first callback after an enabled-mode iteration finds every will_reset_to attribute at its default
 \* C11: between two waits every feedback getter is called exactly once (fbc: keys called since the last wake)
+\* C07: the robot program ends with an exception while the FMS is attached; or a callback raised while it is not
+\*      attached and the program went on (fmsOn follows the recorded driver-station events)
 MonStep(ev) ==
     CASE ev.e = "cb" ->
             [lastM |-> ev.m, prevEnabled |-> mon.prevEnabled, afterWake |-> FALSE,
              fbc |-> IF ev.k = "feedback" THEN Append(mon.fbc, ev.key) ELSE mon.fbc,
-             bad |-> IF mon.afterWake /\ mon.prevEnabled
+             fmsOn |-> mon.fmsOn, pendingFatal |-> (ev.raise /\ ~mon.fmsOn),
+             bad |-> IF mon.pendingFatal THEN "mon:went_on_after_fault_without_fms"
+                     ELSE IF mon.afterWake /\ mon.prevEnabled
                         /\ \E c \in CompSet : \E a \in DOMAIN sh.resets[c] : ev.vals[c][a] # sh.resets[c][a]
                      THEN "mon:reset_attribute_survived_iteration" ELSE ""]
       [] ev.e = "wait" -> [mon EXCEPT !.prevEnabled = (mon.lastM \in {"auto", "teleop"}), !.fbc = <<>>,
-                                      !.bad = IF \E k \in FbKeys : Cardinality({i \in 1..Len(mon.fbc) : mon.fbc[i] = k}) # 1
+                                      !.bad = IF mon.pendingFatal THEN "mon:went_on_after_fault_without_fms"
+                                              ELSE IF \E k \in FbKeys : Cardinality({i \in 1..Len(mon.fbc) : mon.fbc[i] = k}) # 1
                                               THEN "mon:getter_not_called_exactly_once" ELSE ""]
       [] ev.e = "wake" -> [mon EXCEPT !.afterWake = TRUE, !.bad = ""]
+      [] ev.e = "fms" -> [mon EXCEPT !.fmsOn = ev.b, !.bad = ""]
+      [] ev.e = "exit" -> [mon EXCEPT !.bad = IF ev.crashed /\ mon.fmsOn THEN "mon:program_died_with_fms_attached"
+                                                ELSE IF ~ev.crashed /\ mon.pendingFatal THEN "mon:went_on_after_fault_without_fms"
+                                                ELSE ""]
       [] OTHER -> [mon EXCEPT !.bad = ""]
-MonOwner(m) == IF m = "mon:getter_not_called_exactly_once" THEN {"C11"} ELSE {"C10"}
+MonOwner(m) == IF m = "mon:getter_not_called_exactly_once" THEN {"C11"}
+               ELSE IF m \in {"mon:program_died_with_fms_attached", "mon:went_on_after_fault_without_fms"} THEN {"C07"}
+               ELSE {"C10"}
 MonMismatch(ev, m1) ==
     Verdict("MISMATCH", [v |-> "MISMATCH", tid |-> T.id, l |-> l, clauses |-> {m1.bad}, br |-> <<pc, mode>>,
                          exp |-> [defaults |-> sh.resets], obs |-> ev])
